@@ -1,3 +1,4 @@
 import TR.Ring
 import TR.Leptond
 import TR.HandoffRoll
+import TR.Daemon
